@@ -172,7 +172,7 @@ func verifRandomSession(rng *rand.Rand, long bool) verifSessionIn {
 		case x < 13:
 			r = verifsim.Resp{Status: 200 + rng.Intn(4), Ct: []string{[]string{"activity", "ld", "json", "jrd"}[rng.Intn(4)]}, Body: "obj"}
 		case x == 13:
-			r = verifsim.Resp{Status: []int{204, 400, 404, 410, 500, 503}[rng.Intn(6)], Ct: []string{"activity"}, Body: "obj"}
+			r = verifsim.Resp{Status: []int{204, 400, 404, 410, 500, 503, 100, 101, 103, 199, 226, 299}[rng.Intn(12)], Ct: []string{"activity"}, Body: "obj"}
 		case x == 14:
 			r = verifsim.Resp{Status: 200, Ct: []string{[]string{"html", "bad", "wild"}[rng.Intn(3)]}, Body: "obj"}
 		case x == 15 && rng.Intn(2) == 0:
